@@ -79,6 +79,7 @@ struct SrcFile {
 
 struct Ctx {
     repo: PathBuf,
+    expanded: PathBuf,
     files: BTreeMap<String, SrcFile>,
     record: Vec<Value>,
 }
@@ -86,7 +87,13 @@ struct Ctx {
 impl Ctx {
     fn load(&mut self, rel: &str) -> R<&SrcFile> {
         if !self.files.contains_key(rel) {
-            let p = if Path::new(rel).is_absolute() { PathBuf::from(rel) } else { self.repo.join(rel) };
+            let p = if let Some(x) = rel.strip_prefix("@expanded/") {
+                self.expanded.join(x)
+            } else if Path::new(rel).is_absolute() {
+                PathBuf::from(rel)
+            } else {
+                self.repo.join(rel)
+            };
             let text = std::fs::read_to_string(&p)
                 .map_err(|e| Bail(format!("lost anchor: cannot read {}: {e}", p.display())))?;
             let ast = syn::parse_file(&text)
@@ -399,32 +406,69 @@ fn impl_key(i: &syn::ItemImpl) -> String {
     }
 }
 
-fn items_of<'a>(file: &'a syn::File, modpath: &[&str]) -> R<&'a Vec<syn::Item>> {
-    let mut items = &file.items;
-    for m in modpath {
-        let mut found = None;
-        for it in items {
-            if let syn::Item::Mod(im) = it {
-                if im.ident == m {
-                    if let Some((_, inner)) = &im.content {
-                        found = Some(inner);
-                    }
+/// all items of a file, descending into inline modules (macro-expanded crates nest everything)
+fn all_items<'a>(items: &'a [syn::Item], out: &mut Vec<&'a syn::Item>) {
+    for it in items {
+        if let syn::Item::Mod(im) = it {
+            if im.ident == "test" || im.ident == "tests" {
+                continue;
+            }
+            if let Some((_, inner)) = &im.content {
+                all_items(inner, out);
+            }
+        } else {
+            out.push(it);
+        }
+    }
+}
+
+/// Path simplification used only for *matching* impl headers: keep the last segment of every
+/// path, and apply T9 (`<Stack<X> as StackType>::Type` is `X` by the single blanket impl).
+fn simplify_key(s: &str) -> String {
+    let toks: Vec<&str> = s.split(' ').filter(|t| !t.is_empty()).collect();
+    // drop `ident : :` prefixes and leading `: :`
+    let mut out: Vec<&str> = Vec::new();
+    let mut i = 0;
+    while i < toks.len() {
+        if toks[i] == ":" && toks.get(i + 1) == Some(&":") {
+            // path separator: drop it and the segment before it (if it is an identifier)
+            if let Some(last) = out.last() {
+                if last.chars().all(|c| c.is_alphanumeric() || c == '_')
+                    && !["as", "for", "impl", "dyn", "mut", "const", "where"].contains(last)
+                {
+                    out.pop();
                 }
             }
+            i += 2;
+            continue;
         }
-        items = found.ok_or_else(|| Bail(format!("lost anchor: module {m}")))?;
+        out.push(toks[i]);
+        i += 1;
     }
-    Ok(items)
+    let mut k = out.join(" ");
+    // T9
+    loop {
+        let Some(a) = k.find("< Stack < ") else { break };
+        let rest = &k[a + "< Stack < ".len()..];
+        let Some(b) = rest.find(" > as StackType > Type") else { break };
+        let inner = rest[..b].to_string();
+        // `> as StackType > :: Type` lost its `::` above (Type kept): pattern is "> as StackType > Type"
+        k = format!("{}{}{}", &k[..a], inner, &rest[b + " > as StackType > Type".len()..]);
+    }
+    k
 }
 
 fn find_fn<'a>(file: &'a syn::File, container: &str, name: &str) -> R<FnRef<'a>> {
     let container = container.trim();
     let want = if container == "-" { String::new() } else { norm_str(container)? };
     let mut hits: Vec<FnRef<'a>> = Vec::new();
-    for it in items_of(file, &[])? {
+    let want = simplify_key(&want);
+    let mut items = Vec::new();
+    all_items(&file.items, &mut items);
+    for it in items {
         match it {
             syn::Item::Fn(f) if want.is_empty() && f.sig.ident == name => hits.push(FnRef::Free(f)),
-            syn::Item::Impl(i) if impl_key(i) == want => {
+            syn::Item::Impl(i) if simplify_key(&impl_key(i)) == want => {
                 for ii in &i.items {
                     if let syn::ImplItem::Fn(f) = ii {
                         if f.sig.ident == name {
@@ -801,6 +845,12 @@ impl<'a> Visit<'a> for AttrCollector {
         }
         self.attrs.push((a.span(), keep));
     }
+    fn visit_visibility(&mut self, v: &'a syn::Visibility) {
+        // T12: `pub(super)` / `pub(crate)` -> `pub` (the assembled file is one module)
+        if let syn::Visibility::Restricted(r) = v {
+            self.attrs.push((r.span(), Some("pub".into())));
+        }
+    }
     fn visit_ident(&mut self, i: &'a proc_macro2::Ident) {
         if i == "exec" {
             self.idents.push(i.span());
@@ -812,7 +862,9 @@ fn extract_item(ctx: &mut Ctx, rel: &str, kind: &str, name: &str, opts: &str) ->
     let src = ctx.load(rel)?;
     let mut fired = Vec::new();
     let mut found: Option<&syn::Item> = None;
-    for it in &src.ast.items {
+    let mut items = Vec::new();
+    all_items(&src.ast.items, &mut items);
+    for it in items {
         let ok = match (kind, it) {
             ("struct", syn::Item::Struct(s)) => s.ident == name,
             ("enum", syn::Item::Enum(s)) => s.ident == name,
@@ -850,19 +902,9 @@ fn extract_item(ctx: &mut Ctx, rel: &str, kind: &str, name: &str, opts: &str) ->
     Ok(text)
 }
 
-fn fill_hole(ctx: &mut Ctx, template_name: &str, tpl: &str, hole_start: usize, header: &str, dir_lines: &[&str]) -> R<String> {
-    let parts: Vec<&str> = header.split("::").map(str::trim).collect();
-    // header: <file> :: <container> :: <fn>   (container may itself contain `::`)
-    if parts.len() < 3 {
-        return bail(format!("bad @body header `{header}`"));
-    }
-    let rel = parts[0];
-    let name = parts[parts.len() - 1];
-    let container = parts[1..parts.len() - 1].join("::");
-    let dirs = parse_dirs(dir_lines)?;
-    let src = ctx.load(rel)?;
-    let f = find_fn(&src.ast, &container, name)?;
-    let mut fired: Vec<String> = Vec::new();
+
+#[allow(clippy::too_many_arguments)]
+fn check_sig(template_name: &str, tpl: &str, hole_start: usize, name: &str, f: &FnRef, subst: &[(String, String)], nosig: bool, fired: &mut Vec<String>, rel: &str, container: &str) -> R<String> {
     // signature check against the template text preceding the hole
     let before = &tpl[..hole_start];
     let needle = format!("fn {name}");
@@ -888,8 +930,8 @@ fn fill_hole(ctx: &mut Ctx, template_name: &str, tpl: &str, hole_start: usize, h
         }
     }
     sig_text = &sig_text[..cut];
-    let real = real_sig_key(f.sig(), &dirs.subst, &mut fired);
-    if !dirs.nosig {
+    let real = real_sig_key(f.sig(), subst, fired);
+    if !nosig {
         let tsig = template_sig_key(sig_text)?;
         if tsig != real {
             return bail(format!(
@@ -897,6 +939,23 @@ fn fill_hole(ctx: &mut Ctx, template_name: &str, tpl: &str, hole_start: usize, h
             ));
         }
     }
+    Ok(real)
+}
+
+fn fill_hole(ctx: &mut Ctx, template_name: &str, tpl: &str, hole_start: usize, header: &str, dir_lines: &[&str]) -> R<String> {
+    let parts: Vec<&str> = header.split("::").map(str::trim).collect();
+    // header: <file> :: <container> :: <fn>   (container may itself contain `::`)
+    if parts.len() < 3 {
+        return bail(format!("bad @body header `{header}`"));
+    }
+    let rel = parts[0];
+    let name = parts[parts.len() - 1];
+    let container = parts[1..parts.len() - 1].join("::");
+    let dirs = parse_dirs(dir_lines)?;
+    let src = ctx.load(rel)?;
+    let f = find_fn(&src.ast, &container, name)?;
+    let mut fired: Vec<String> = Vec::new();
+    let real = check_sig(template_name, tpl, hole_start, name, &f, &dirs.subst, dirs.nosig, &mut fired, rel, &container)?;
     let body = transform_body(src, &f, &dirs, &mut fired)?;
     let sp = f.span();
     let (a, b) = range(sp);
@@ -912,7 +971,33 @@ fn process_template(ctx: &mut Ctx, name: &str, tpl: &str) -> R<String> {
     let mut pos = 0;
     loop {
         // next directive: `//@item` line or `{@body`
+        // `//@sig` lines: signature-only check for bodiless trait methods (text is left in place)
         let nb = tpl[pos..].find("{@body").map(|i| pos + i);
+        let ns = tpl[pos..].find("//@sig").map(|i| pos + i);
+        if let Some(sp) = ns {
+            let before_other = nb.map_or(true, |b| sp < b) && tpl[pos..].find("//@item").map_or(true, |i| sp < pos + i);
+            if before_other {
+                let eol = tpl[sp..].find('\n').map_or(tpl.len(), |i| sp + i);
+                let header = tpl[sp + "//@sig".len()..eol].trim();
+                let parts: Vec<&str> = header.split("::").map(str::trim).collect();
+                if parts.len() < 3 {
+                    return bail(format!("{name}: bad @sig `{header}`"));
+                }
+                let rel = parts[0];
+                let fname = parts[parts.len() - 1];
+                let container = parts[1..parts.len() - 1].join("::");
+                let src = ctx.load(rel)?;
+                let f = find_fn(&src.ast, &container, fname)?;
+                let mut fired = Vec::new();
+                let real = check_sig(name, tpl, sp, fname, &f, &[], false, &mut fired, rel, &container)?;
+                let spn = f.span();
+                ctx.record.push(json!({"kind":"sig","file":rel,"container":container,"fn":fname,
+                    "lines":[spn.start().line, spn.end().line],"signature":real,"template":name}));
+                out.push_str(&tpl[pos..eol]);
+                pos = eol;
+                continue;
+            }
+        }
         let ni = tpl[pos..].find("//@item").map(|i| pos + i);
         let next = match (nb, ni) {
             (None, None) => break,
@@ -959,6 +1044,7 @@ fn process_template(ctx: &mut Ctx, name: &str, tpl: &str) -> R<String> {
 fn main() {
     let args: Vec<String> = std::env::args().collect();
     let mut repo = PathBuf::from("/repo");
+    let mut expanded = PathBuf::from("build/expanded");
     let mut out = PathBuf::from("build/all.rs");
     let mut rec = PathBuf::from("build/extraction.json");
     let mut templates: Vec<PathBuf> = Vec::new();
@@ -967,6 +1053,10 @@ fn main() {
         match args[i].as_str() {
             "--repo" => {
                 repo = PathBuf::from(&args[i + 1]);
+                i += 1;
+            }
+            "--expanded" => {
+                expanded = PathBuf::from(&args[i + 1]);
                 i += 1;
             }
             "-o" => {
@@ -981,7 +1071,7 @@ fn main() {
         }
         i += 1;
     }
-    let mut ctx = Ctx { repo, files: BTreeMap::new(), record: Vec::new() };
+    let mut ctx = Ctx { repo, expanded, files: BTreeMap::new(), record: Vec::new() };
     let mut all = String::new();
     for t in &templates {
         let tpl = match std::fs::read_to_string(t) {
